@@ -158,4 +158,11 @@ def skipBodyV1 : M Unit := do
   discardBytes32
   discardBytes32
 
+/-- readMessageV1, a compressed wrapper message: `discardBytes()` passes over the wrapper's key — null as producers write
+it, or any key (C05-D31: the pinned code skipped exactly four bytes there) — then `readBytesWith(decompress)` takes the
+value: the 4-byte length, `n > remain` → errShortRead, else exactly `n` bytes are handed to the codec -/
+def readWrapV1 : M (Option Bytes) := do
+  discardBytes32
+  readBytes32
+
 end KV.C02.BR
